@@ -35,7 +35,9 @@ PoolGen == PoolSmall \cup {
   T("vote3",    "vote",     "u3", "u3", "this",  "sys", 0, ""),
   T("fdfail3",  "fdcall",   "u3", "u3", "this",  "c1", 0, "fail"),
   T("callsys",  "call",     "u2", "u2", "this",  "c1", 1, "sys"),
-  T("fdsys",    "fdcall",   "u3", "u3", "this",  "c1", 0, "sys")
+  T("fdsys",    "fdcall",   "u3", "u3", "this",  "c1", 0, "sys"),
+  T("setownself","setowner","u2", "u2", "this",  "u2", 0, ""),
+  T("setownoth", "setowner","u3", "u3", "this",  "u1", 0, "")
 }
 AllModes == {"next", "dup", "gap"}
 GenView == [bal |-> bal, nonce |-> nonce, staked |-> staked, total |-> total, owner |-> owner, deployed |-> deployed,
